@@ -17,6 +17,8 @@ import (
 	"sync/atomic"
 	"time"
 
+	"github.com/tychoish/fun/pubsub"
+
 	"verif/harness/kit"
 )
 
@@ -235,4 +237,87 @@ func genContention(r *kit.Rand, id int, calls int) Case {
 	c.C = r.Range(1, 2)
 	c.N = calls / c.P
 	return c
+}
+
+// ---------------------------------------------------------------- parked consumers must all be served
+//
+// C consumers park in Wait / Receive on an empty queue (the "before-cond-wait" yield point tells
+// the driver that each of them is about to park; the Adds below cannot get the mutex before the
+// last one has parked), then ONE goroutine adds C items.  Every consumer must return an item
+// within its 10 s deadline: doAdd signals nempty only on the 0 -> 1 transition, the remaining
+// consumers rely on being woken by the returning one.  Deterministic on the unchanged tree;
+// a consumer that reports its deadline although an item was queued for it is
+// C05:Queue.Wait:stuck.
+func runWake(run *kit.Run, c Case, verbose bool) {
+	q, err := newQueue(c.Cfg)
+	if err != nil {
+		panic(err)
+	}
+	d := q.Distributor()
+	var parked atomic.Int32
+	pubsub.SetVerifYieldHook(func(name string) {
+		if name == "pubsub.wait.before-cond-wait" {
+			parked.Add(1)
+		}
+	})
+	defer pubsub.SetVerifYieldHook(nil)
+
+	ctx, cancel := context.WithTimeout(context.Background(), 10*time.Second)
+	defer cancel()
+	res := make([]Res, c.C)
+	var wg sync.WaitGroup
+	for k := 0; k < c.C; k++ {
+		wg.Add(1)
+		go func(k int) {
+			defer wg.Done()
+			op := "Wait"
+			if k%2 == 1 && c.N%2 == 1 {
+				op = "Receive"
+			}
+			res[k] = apply(q, d, ctx, Op{Op: op})
+		}(k)
+	}
+	deadline := time.Now().Add(10 * time.Second)
+	for int(parked.Load()) < c.C && time.Now().Before(deadline) {
+		time.Sleep(200 * time.Microsecond)
+	}
+	allParked := int(parked.Load()) >= c.C
+	addRes := make([]Res, c.C)
+	for i := 0; i < c.C; i++ {
+		addRes[i] = apply(q, d, ctx, Op{Op: "Add", V: int64(100 + i)})
+	}
+	wg.Wait()
+	left := q.Len()
+
+	got := map[int64]bool{}
+	stuck := 0
+	for k, r := range res {
+		switch {
+		case r.K == "item":
+			if got[r.V] {
+				run.OracleFail(c.ID, "C05:Queue:contention-duplicate", fmt.Sprintf("item %d delivered twice to parked consumers", r.V), c, res)
+			}
+			got[r.V] = true
+		case r.K == "err" && r.E == "ctx":
+			stuck++
+		default:
+			run.OracleFail(c.ID, "C05:Queue.Wait:unexpected-result", fmt.Sprintf("parked consumer %d returned %s", k, r), c, res)
+		}
+	}
+	for i, r := range addRes {
+		if r.K != "err" || r.E != "nil" {
+			run.OracleFail(c.ID, "C05:Queue.Add:admission", fmt.Sprintf("Add #%d on an unlimited open queue returned %s", i, r), c, addRes)
+		}
+	}
+	if allParked && stuck > 0 {
+		run.OracleFail(c.ID, "C05:Queue.Wait:stuck", fmt.Sprintf("%d of %d consumers parked in Wait/Receive were still blocked at their 10 s deadline although %d items had been added for them (Len() = %d afterwards)", stuck, c.C, c.C, left), c, res)
+	}
+	if verbose {
+		fmt.Printf("wake C=%d: all parked=%v results=%v left=%d\n", c.C, allParked, res, left)
+	}
+	run.Count("wake/scenarios")
+	if !allParked {
+		run.Count("wake/not-all-parked")
+	}
+	run.Case(c.ID, c, "", fmt.Sprintf("w|%d|%d", c.C, c.N), c.C >= 2)
 }
